@@ -72,6 +72,8 @@ def behaviours_from_json(beh):
                 d[f] = _b(d[f])
         if "files" in d:
             d["files"] = {p: _b(c) for p, c in d["files"].items()}
+        if "writes" in d:
+            d["writes"] = [(w, _b(c)) for w, c in d["writes"]]
         out[k] = d
     return out
 
